@@ -419,6 +419,14 @@ impl<CS: BbsCiphersuite> PoKSignature<BBSplus<CS>> {
 
         let api_id = CS::API_ID_BLIND;
 
+        if disclosed_messages.len() != disclosed_indexes.len()
+            || disclosed_committed_messages.len() != disclosed_commitment_indexes.len()
+        {
+            return Err(Error::PoKSVerificationError(
+                "len messages != len indexes".to_owned(),
+            ));
+        }
+
         // total number of signed scalars: L signer messages, the blind factor, M committed messages
         let U = proof.m_cap.len();
         let M = (disclosed_indexes.len() + disclosed_commitment_indexes.len() + U)
